@@ -10,6 +10,7 @@ Structural clauses decided:
   T6  MALLOC/CALLOC/REALLOC/FREE/STRDUP map to the tracking wrappers iff DEBUG >= DEBUG_MEM; FREE nulls its argument
   T7  no raw allocator call outside mem.c except through the allocation macros (frozen exceptions with reasons)
   T8  the record's file name is copied with a bound equal to the size of the field it is copied into
+  T12 a field of the tracking record that takes a wrapper parameter unchanged (size, line) has at least min(width of the parameter, 32) bits
   T9  removing a record moves exactly the records behind its slot down by one (GHOSTPOS over count and slot offset)
   T11 the lookup answers from the table it is given: it reads no other mutable state, or every record it returns was compared
       with the pointer asked for on the way to the return (a remembered slot must be re-validated)
@@ -601,7 +602,8 @@ def run(tier="quick", mktable=False):
                      ("T2", "every table edit is dominated by the runtime gate"), ("T4", "not-found leaves the table unchanged"),
                      ("T11", "the lookup returns a record only of the pointer asked for (no unvalidated remembered slot)"),
                      ("T5", "REALLOC macro and spifmem_realloc agree on (NULL?,0?)"), ("T6", "allocation macros map to wrappers iff DEBUG >= DEBUG_MEM"),
-                     ("T7", "no raw allocator call outside mem.c except via the macros"), ("T9", "removing a record closes the gap with exactly the records behind it"), ("T8", "file name copied with the bound of its field")):
+                     ("T7", "no raw allocator call outside mem.c except via the macros"), ("T9", "removing a record closes the gap with exactly the records behind it"), ("T8", "file name copied with the bound of its field"),
+                     ("T12", "a record field that takes a wrapper parameter keeps at least min(its width, 32) bits of it")):
         chk.rule(rid, txt)
     prog = facts.extract()
     u = prog.units.get("mem.c")
@@ -1054,6 +1056,7 @@ def run(tier="quick", mktable=False):
     chk.count("count_raising_functions", n10, floor=1)
     # T8
     nb = 0
+    file_recs = set()
     # every bounded copy into a record's `file` field, wherever mem.c does it (the two edit primitives today; a shared helper
     # after a refactoring)
     for fn in u.functions.values():
@@ -1064,6 +1067,8 @@ def run(tier="quick", mktable=False):
                 d = X.strip(a[0])
                 if d.get("k") == "member" and d.get("n") == "file":
                     nb += 1
+                    if d.get("rec"):
+                        file_recs.add(d["rec"])
                     t = d.get("tc") or d.get("t") or ""
                     m = re.search(r"\[(\d+)\]", t)
                     bound = X.const_val(a[2])
@@ -1071,6 +1076,31 @@ def run(tier="quick", mktable=False):
                     chk.ob("T8", nm, "file-bound", ok, loc=fn.loc(c),
                            detail="%s copies the file name with bound %s into a field of %s bytes" % (nm, bound, m.group(1) if m else "?"),
                            proof="bound == sizeof(field) == %s" % bound)
+    # T12: a field of the tracking record that takes a wrapper parameter unchanged keeps it whole: at least min(width of the
+    # parameter, 32) bits (a line number is any value up to 2^31 - 1 - #line, generated and amalgamated sources -, a size is a
+    # size_t).  The record type is the one whose `file` field T8 found; decided on the resolved types (typedefs looked through).
+    nw = 0
+    for fn in u.functions.values():
+        if fn.body is None:
+            continue
+        pw = {p_["n"]: p_.get("tw") for p_ in (fn.params or []) if p_.get("tw")}
+        for x in walk(fn.body):
+            if x.get("k") != "assign" or x.get("op") != "=" or not x.get("ch"):
+                continue
+            d = X.strip(x["ch"][0]) or {}
+            r = X.strip(x["ch"][1]) or {}
+            if d.get("k") != "member" or d.get("rec") not in file_recs or not d.get("tw"):
+                continue
+            if r.get("k") != "ref" or r.get("rk") != "param" or not pw.get(r.get("n")):
+                continue
+            nw += 1
+            need = min(pw[r["n"]], 32)
+            chk.ob("T12", fn.name, "field-width:%s" % d.get("n"), d["tw"] >= need, loc=fn.loc(x),
+                   detail="%s stores its parameter %s (%d bits) in the record field %s of %d bits: a value of 2^%d or more (a line number "
+                          "of a generated or amalgamated source, a #line directive) is recorded as a different one"
+                          % (fn.name, r["n"], pw[r["n"]], d.get("n"), d["tw"], d["tw"]),
+                   proof="field %s has %d bits >= min(width of the parameter, 32) = %d" % (d.get("n"), d["tw"], need))
+    chk.count("record_field_stores_of_parameters", nw, floor=4)
     chk.count("wrapper_paths", npaths, floor=8)
     chk.count("gated_edit_sites", nedit, floor=4)
     chk.count("raw_allocator_calls_outside_mem", nraw, floor=100)
